@@ -28,6 +28,9 @@ func intern(kind, name string, args []*Term) *Atom {
 		sb.WriteString(name)
 	} else {
 		sb.WriteString(kind)
+		if name != "" {
+			sb.WriteString("[" + name + "]")
+		}
 		sb.WriteString("(")
 		for i, a := range args {
 			if i > 0 {
@@ -573,6 +576,9 @@ func expOf(u *Term) *Term {
 	if u.IsZero() {
 		return One()
 	}
+	if u.String() == "-Inf" {
+		return Zero() // e^{-inf} = 0
+	}
 	res := One()
 	den := mk(u.D.clone(), polyConst(big.NewRat(1, 1)))
 	for _, x := range u.N.sorted() {
@@ -703,10 +709,28 @@ func besselI(mu, x *Term) *Term {
 
 // Sum builds sum_{j=lo}^{hi} body where body mentions the bound symbol "$j".
 func Sum(lo, hi, body *Term) *Term {
+	return SumVar("$j", lo, hi, body)
+}
+
+// SumVar is Sum with an explicit bound symbol. A small positive constant lower
+// bound is normalised to 0: sum_{lo}^{hi} f = sum_{0}^{hi} f - f(0) - ... - f(lo-1).
+func SumVar(v string, lo, hi, body *Term) *Term {
 	if body.IsZero() {
 		return Zero()
 	}
-	return fromAtom(intern("sum", "", []*Term{lo, hi, body}))
+	bv := SymAtom(v)
+	if !body.DependsOn(bv) {
+		// constant body: (hi-lo+1)*body
+		return Mul(Add(Sub(hi, lo), One()), body)
+	}
+	if c, ok := lo.IsConst(); ok && c.IsInt() && c.Sign() > 0 && c.Num().Int64() <= 4 {
+		r := fromAtom(intern("sum", v, []*Term{Zero(), hi, body}))
+		for k := int64(0); k < c.Num().Int64(); k++ {
+			r = Sub(r, Subst(body, map[*Atom]*Term{bv: Int(k)}))
+		}
+		return r
+	}
+	return fromAtom(intern("sum", v, []*Term{lo, hi, body}))
 }
 
 // ---------------------------------------------------------------------------
@@ -847,7 +871,7 @@ func diffAtom(a *Atom, x *Atom) (*Term, error) {
 		if !du[0].IsZero() || !du[1].IsZero() {
 			return nil, &DiffError{"sum: bounds depend on the variable"}
 		}
-		return Sum(a.Args[0], a.Args[1], du[2]), nil
+		return SumVar(a.Name, a.Args[0], a.Args[1], du[2]), nil
 	}
 	return nil, &DiffError{"no differentiation rule for " + a.Kind}
 }
@@ -871,7 +895,11 @@ func Subst(t *Term, m map[*Atom]*Term) *Term {
 					for i, a := range f.A.Args {
 						args[i] = Subst(a, m)
 					}
-					at = Fn(f.A.Kind, args...)
+					if f.A.Kind == "sum" {
+						at = SumVar(f.A.Name, args[0], args[1], args[2])
+					} else {
+						at = Fn(f.A.Kind, args...)
+					}
 				}
 				tm = Mul(tm, PowInt(at, f.E))
 			}
